@@ -2435,8 +2435,12 @@ func (fr *Frame) hintsAtCall(call *ssa.Call) {
 			fr.c().assume(imp(fr.cur.reach, t))
 			continue
 		}
+		kind := "hint"
+		if ac.CheckOnly {
+			kind = "assert"
+		}
 		for _, cj := range splitConj(ac.Expr) {
-			fr.proveSpecEnv("hint", fmt.Sprintf("proof hint before call %s#%d: %s", ac.Callee, ac.N, cj.String()), cl, cj, se)
+			fr.proveSpecEnv(kind, fmt.Sprintf("assertion before call %s#%d: %s", ac.Callee, ac.N, cj.String()), cl, cj, se)
 		}
 	}
 }
